@@ -514,7 +514,9 @@ func (e *kvElection) becomeLeader(token string, rev uint64) {
 	// consecutive health failures are counted per term
 	e.healthFailureCount.Store(0)
 
-	e.isLeader.Store(true)
+	// The flag is published last: IsLeader(), Token() and the watcher read these
+	// fields without the mutex, and whoever sees the flag must see the term's
+	// token and revision with it.
 	e.leaderID.Store(e.cfg.InstanceID)
 	e.token.Store(token)
 	e.revision.Store(rev)
@@ -523,6 +525,7 @@ func (e *kvElection) becomeLeader(token string, rev uint64) {
 	e.lastHeartbeat.Store(now)
 	e.lastTransition.Store(now)
 	e.leaderStartTime.Store(now)
+	e.isLeader.Store(true)
 
 	e.recordTransition(fromState, StateLeader)
 	e.updateIsLeaderMetric()
@@ -852,6 +855,10 @@ func (e *kvElection) Stop() error {
 		}
 	}
 
+	// The claim goes first: the promotion context (a child of the run context)
+	// is not cancelled while IsLeader() still answers true.
+	e.isLeader.Store(false)
+
 	if e.cancel != nil {
 		e.cancel()
 	}
@@ -863,7 +870,6 @@ func (e *kvElection) Stop() error {
 		e.cbTickets++
 	}
 
-	e.isLeader.Store(false)
 	e.state.Store(StateStopped)
 	e.lastTransition.Store(time.Now())
 	e.watcherRunning.Store(false)
@@ -948,11 +954,13 @@ func (e *kvElection) StopWithContext(ctx context.Context, opts StopOptions) erro
 		defer e.passCallbackTurn(demoteTicket, &demoteReported)
 	}
 
+	// (the claim goes first, as in Stop)
+	e.isLeader.Store(false)
+
 	if e.cancel != nil {
 		e.cancel()
 	}
 
-	e.isLeader.Store(false)
 	e.state.Store(StateStopped)
 	e.lastTransition.Store(time.Now())
 	e.watcherRunning.Store(false)
